@@ -23,6 +23,14 @@ Proof.
     rewrite stops_app. cbn [stops map concat]. now rewrite IH.
 Qed.
 
+Lemma stops_concat_comma l : stops (concat_comma l) = concat (map stops l).
+Proof.
+  induction l as [|x r IH]; [reflexivity|]. destruct r as [|y r'].
+  - cbn. now rewrite app_nil_r.
+  - change (concat_comma (x :: y :: r')) with (x ++ SnText ", " :: concat_comma (y :: r'))%list.
+    rewrite stops_app. cbn [stops map concat]. now rewrite IH.
+Qed.
+
 (* the invariant: either the data is "empty" (the caller falls back), or the snippet's tab stops
    are exactly next, next+1, ... and the counter handed back continues the sequence *)
 Definition good (next : Z) (d : cdata) : Prop :=
@@ -54,6 +62,39 @@ Section Loops.
       + destruct (Hrec _ _ _ _ E) as [He|(n & Hn & Hx)]; [congruence|].
         apply (IH _ _ _ (k + n)%nat).
         * cbn [rev]. rewrite map_app, concat_app. cbn [map concat]. rewrite app_nil_r, Hs, Hn, Hl. apply zseq_app.
+        * rewrite Hx, Hl. lia.
+  Qed.
+
+  Lemma seq_go_good lvl next0 : forall l last news snips k d,
+    concat (map stops (rev snips)) = zseq next0 k -> last = (next0 + Z.of_nat k)%Z ->
+    seq_go rec lvl l last news snips = Some d -> good next0 d.
+  Proof.
+    induction l as [|e r IH]; intros last news snips k d Hs Hl; cbn [seq_go].
+    - intros H; inversion H; subst. right. exists k. cbn [cd_snip cd_next].
+      split; [|reflexivity]. cbn [stops]. rewrite stops_app, stops_concat_comma, Hs. cbn. now rewrite app_nil_r.
+    - destruct (rec (CLitValue e TNil false) last lvl) as [de|] eqn:E; [|discriminate].
+      destruct (cd_empty de) eqn:Ee.
+      + intros H; inversion H. left. reflexivity.
+      + destruct (Hrec _ _ _ _ E) as [He|(n & Hn & Hx)]; [congruence|].
+        apply (IH _ _ _ (k + n)%nat).
+        * cbn [rev]. rewrite map_app, concat_app. cbn [map concat]. rewrite app_nil_r, Hs, Hn, Hl. apply zseq_app.
+        * rewrite Hx, Hl. lia.
+  Qed.
+
+  Lemma map_go_good lvl next0 : forall l last news snip k d,
+    stops snip = zseq next0 k -> last = (next0 + Z.of_nat k)%Z ->
+    map_go rec lvl l last news snip = Some d -> good next0 d.
+  Proof.
+    induction l as [|e r IH]; intros last news snip k d Hs Hl; cbn [map_go].
+    - intros H; inversion H; subst. right. exists k. cbn [cd_snip cd_next]. split; [|reflexivity].
+      cbn [stops]. rewrite stops_app, Hs. cbn. now rewrite app_nil_r.
+    - destruct e as [a|st|[|[a|kk|l0] [|v [|]]]]; try discriminate.
+      destruct (rec (CLitValue v TNil false) last (S lvl)) as [de|] eqn:E; [|discriminate].
+      destruct (cd_empty de) eqn:Ee.
+      + intros H; inversion H. left. reflexivity.
+      + destruct (Hrec _ _ _ _ E) as [He|(n & Hn & Hx)]; [congruence|].
+        apply (IH _ _ _ (k + n)%nat).
+        * rewrite stops_app. cbn [stops]. rewrite stops_app, Hs, Hn, Hl. cbn [stops]. rewrite app_nil_r. apply zseq_app.
         * rewrite Hx, Hl. lia.
   Qed.
 
@@ -105,7 +146,17 @@ Proof.
   - destruct t as [| | | | |e|e|e|ts|ats];
       try (intros H; inversion H; first [now apply good_empty | right; exists 1%nat; cbn; split; [reflexivity|lia]]; fail);
       cbn [expand_lit_type]; apply IH.
-  - discriminate.
+  - destruct (lit_prim_text v lvl) as [txt|].
+    + intros H; inversion H. right. exists 0%nat. cbn. split; [reflexivity|lia].
+    + destruct v as [a|st|l]; try discriminate.
+      destruct l as [|[a| |] [|tt [|[| |l] [|]]]]; try discriminate.
+      destruct (String.eqb a "seq").
+      * apply (seq_go_good (ecd prefill f) IH lvl next l next [] [] 0%nat); [reflexivity|lia].
+      * destruct (String.eqb a "kv"); [|discriminate].
+        destruct (is_object_type tt).
+        -- destruct (negb prefill); [intros H; inversion H; apply good_brace|].
+           apply (object_go_good (ecd prefill f) IH lvl next _ (good_brace _ _ _) _ next false ""%string [] 0%nat); [reflexivity|lia].
+        -- apply (map_go_good (ecd prefill f) IH lvl next l next ""%string [] 0%nat); [reflexivity|lia].
   - intros H; inversion H. now apply good_empty.
   - intros H; inversion H. now apply good_empty.
   - intros H; inversion H. now apply good_empty.
